@@ -118,12 +118,19 @@ def run(tier, seed):
     res = common.Result('model_checking')
     m0 = tq.initial()
     if tier == 'quick':
-        allser = tq.enumerate_series(3, 1, allow_after_failure=1, plain_files={'f', 'd/g'})
+        allser = tq.enumerate_series(3, 1, allow_after_failure=1, plain_files={'f', 'd/g', 'n'})
         series = [s for s in allser if len(s) == 3 and all(len(p.fps) == 1 for p in s)]
-        series = series[::3]
+        series = series[::4]
     else:
         allser = tq.enumerate_series(3, 1, allow_after_failure=1) + tq.enumerate_series(4, 1, allow_after_failure=1, plain_files={'f'})
         series = [s for s in allser if len(s) >= 3]
+    # names whose existence changes during the push: the result must not depend on where the push is cut
+    for steps in ([[(tq.t_delete, 'f', False)], [(tq.t_viaold, 'f', 'd/h')], [(tq.t_mod, 'e/i')]], [[(tq.t_rename, 'f', 'n', False)], [(tq.t_viaold, 'f', 'e/i')], [(tq.t_mod, 'n')]],
+                  [[(tq.t_mod, 'f')], [(tq.t_rename, 'f', 'n', True)], [(tq.t_mod, 'n', 1, 0, 4)]], [[(tq.t_create, 'n', False)], [(tq.t_mod, 'n', 1, 0, 0)], [(tq.t_delete, 'n', False)]],
+                  [[(tq.t_delete, 'd/g', False)], [(tq.t_create, 'd/g', True)], [(tq.t_mod, 'd/g', 1, 0, 0)]], [[(tq.t_delete, 'f', True)], [(tq.t_fill, 'f')], [(tq.t_mod, 'f', 1, 0, 0)]]):
+        s_ = tq.build_series(m0, steps)
+        if s_:
+            series.append(s_)
     # an unpatchable target (I/O error) is not a patch failure: such pushes are refused as a whole (C17's subject)
     series = [s for s in series if not any(fp.error for p in s for fp in p.fps)]
     acc = wsweep.Acc(res)
